@@ -438,3 +438,243 @@ RULES = [
     ("C10.PARSE", rule_parse, "per format class: L(grammar) within the language str_to_num accepts; capture groups safe for int()/float()"),
     ("C10.RENDER", rule_render, "per format class: output language of num_to_str within L(message validator)"),
 ]
+
+
+# ------------------------------------------------------------------ SIGN / CARRY (structural halves of the numeric clauses)
+def _linform(t):
+    """Linear form {symbol: coeff, 1: const} of an arithmetic term over capture-group symbols, or None.
+    Symbols are (pattern, group index) pairs: float()/int() of a capture group."""
+    if isinstance(t, Const) and isinstance(t.v, (int, float)) and not isinstance(t.v, bool):
+        return {1: float(t.v)}
+    if not isinstance(t, Term):
+        return None
+    if t.op == "call" and isinstance(t.args[0], Builtin) and t.args[0].name in ("float", "int") and t.args[1]:
+        g = _group_ref(t.args[1][0])
+        if g is not None:
+            return {g: 1.0}
+        return None
+    if t.op == "unary" and t.args[0] in ("USub", "UAdd"):
+        f = _linform(t.args[1])
+        if f is None:
+            return None
+        return {k: (-v if t.args[0] == "USub" else v) for k, v in f.items()}
+    if t.op == "binop":
+        op, a, b = t.args
+        fa, fb = _linform(a), _linform(b)
+        if fa is None or fb is None:
+            return None
+        if op in ("+", "-"):
+            out = dict(fa)
+            for k, v in fb.items():
+                out[k] = out.get(k, 0.0) + (v if op == "+" else -v)
+            return out
+        if op == "*":
+            if set(fa) <= {1}:
+                return {k: v * fa.get(1, 0.0) for k, v in fb.items()}
+            if set(fb) <= {1}:
+                return {k: v * fb.get(1, 0.0) for k, v in fa.items()}
+            return None
+        if op == "/":
+            if set(fb) <= {1} and fb.get(1):
+                return {k: v / fb[1] for k, v in fa.items()}
+            return None
+    return None
+
+
+def rule_sign(ctx):
+    """The sign applies to the whole sexagesimal magnitude (parse side), as a statement about the linear form
+    of the returned value in the captured fields, path by path."""
+    p = ctx.p
+    f = _values_fn(p, "str_to_num")
+    bad = False
+    npaths = 0
+    for fmt in ("%.6m", "%f"):
+        s = Term("param", "s", pytype="str")
+        paths = run_method(p, f, args=[s, Const(fmt)], opts={"assert_forks": True, "fork_ifexp": True})
+        ctx.paths_enumerated += len(paths)
+        for pa in paths:
+            if pa.outcome != "return" or pa.value is None:
+                continue
+            form = _linform(pa.value)
+            if form is None:
+                continue  # plain int()/float() of the whole text, None, ...
+            syms = [k for k in form if k != 1]
+            if len(syms) < 2:
+                continue  # not a sexagesimal path
+            npaths += 1
+            # which groups can carry a sign themselves, and what does the path assume about a separate sign group?
+            signed = {}
+            for g in syms:
+                try:
+                    gl = group_lang(g[0], g[1])
+                    ok_unsigned, _, _ = included(gl, Lang([r"[^-]*"], mode="fullmatch"))
+                    signed[g] = not ok_unsigned
+                except Undecided:
+                    signed[g] = True
+            sep_sign = None
+            for e in pa.assumes():
+                c = e.data["cond"]
+                if isinstance(c, Term) and c.op == "cmp" and c.args[0] in ("==", "!=") and isinstance(c.args[2], Const) and c.args[2].v == "-" and _group_ref(c.args[1]) is not None:
+                    t_ = e.data["truth"] if c.args[0] == "==" else not e.data["truth"]
+                    sep_sign = -1 if t_ else +1
+            # feasibility of assumptions comparing a linear form with 0 (all magnitudes are >= 0)
+            infeasible = False
+            zero_syms = set()
+            for e in pa.assumes():
+                c = e.data["cond"]
+                if isinstance(c, Term) and c.op == "cmp" and c.args[0] in ("<", "<=", ">", ">=") and isinstance(c.args[2], Const) and c.args[2].v == 0:
+                    lf = _linform(c.args[1])
+                    if lf is None or any(signed.get(k) for k in lf if k != 1):
+                        continue
+                    coeffs = [v for k, v in lf.items() if k != 1]
+                    const = lf.get(1, 0.0)
+                    op, truth = c.args[0], e.data["truth"]
+                    if not truth:
+                        op = {"<": ">=", "<=": ">", ">": "<=", ">=": "<"}[op]
+                    if all(v >= 0 for v in coeffs) and const >= 0 and op == "<":
+                        infeasible = True
+                    if all(v <= 0 for v in coeffs) and const <= 0 and op == ">":
+                        infeasible = True
+                    if all(v <= 0 for v in coeffs) and const <= 0 and op == ">=":
+                        zero_syms |= {k for k, v in lf.items() if k != 1 and v != 0}
+                    if all(v >= 0 for v in coeffs) and const >= 0 and op == "<=":
+                        zero_syms |= {k for k, v in lf.items() if k != 1 and v != 0}
+            if infeasible:
+                continue
+            order = sorted(syms, key=lambda g: g[1])
+            weights = [1.0, 1 / 60.0, 1 / 3600.0]
+            if any(signed.values()):
+                # a field that carries the sign itself: the other fields must follow its sign - impossible for a fixed coefficient
+                sg = [g for g in order if signed[g]][0]
+                others = [g for g in order if g is not sg and abs(form.get(g, 0.0)) > 0]
+                if others:
+                    ctx.violated("C10.SIGN", f.short, f"under format {fmt} the sign is part of capture group {sg[1]} only, while the other fields are added with a fixed positive coefficient: '-1:30' is read as -1 + 0.5 instead of -(1 + 0.5)", fi=f, text="sign-on-first-field-only", witness="-0:30")
+                    bad = True
+                continue
+            expect_sign = sep_sign if sep_sign is not None else +1
+            live = [g for g in order if g not in zero_syms]
+            mism = [g for i, g in enumerate(order) if g in live and abs(form.get(g, 0.0) - expect_sign * weights[min(i, 2)]) > 1e-12]
+            if mism and len(order) <= 3:
+                zs = f" with field(s) {sorted(k[1] for k in zero_syms)} equal to zero" if zero_syms else ""
+                ctx.violated("C10.SIGN", f.short, f"under format {fmt} a path returns {show(pa.value)[:90]}: for a text with sign {'-' if expect_sign < 0 else '+'}{zs} the fields have coefficients { {g[1]: round(form.get(g, 0.0), 6) for g in order} }, expected { {g[1]: round(expect_sign * weights[min(i, 2)], 6) for i, g in enumerate(order)} } (the sign applies to the whole magnitude)", fi=f, text=f"sign-linear-form:{'neg' if expect_sign < 0 else 'pos'}:{bool(zero_syms)}", witness="-0:30")
+                bad = True
+    if npaths == 0:
+        ctx.undecided("C10.SIGN", f.short, "no sexagesimal return path with a linear form in the captured fields found", fi=f)
+    elif not bad:
+        ctx.holds("C10.SIGN", f.short, f"{npaths} sexagesimal return paths: value = sign x (whole + minutes/60 + seconds/3600) as a linear form in the captured fields", fi=f)
+
+
+def rule_sign_render(ctx):
+    """Rendering: the sign is a separate leading field and every numeric field is computed from the magnitude;
+    no field after the first ':' can render 60 or more (carry)."""
+    p = ctx.p
+    f = _values_fn(p, "num_to_str")
+    bad = False
+    nfields = 0
+    for fmt in SEX_FORMATS[:5]:
+        paths = run_method(p, f, args=[Term("param", "n", pytype="float"), Const(fmt)], opts={"assert_forks": True})
+        ctx.paths_enumerated += len(paths)
+        neg_paths = 0
+        for pa in paths:
+            v = pa.value
+            if pa.outcome != "return" or not (isinstance(v, Term) and v.op == "fstr"):
+                continue
+            negs = [e.data["truth"] for e in pa.assumes() if isinstance(e.data["cond"], Term) and e.data["cond"].op == "cmp" and show(e.data["cond"]) in ("(n < 0)", "(n < 0.0)", "(n >= 0)", "(0 > n)")]
+            parts = list(v.args)
+            fields = [x for x in parts if not isinstance(x, str)]
+            bare = [x for x in fields if mentions(x[0], lambda t: isinstance(t, Term) and t.op == "param" and t.args[0] == "n") and not _only_under_abs(x[0])]
+            if bare:
+                ctx.violated("C10.SIGN", f.short, f"format {fmt}: field {{{show(bare[0][0])[:50]}}} is computed from the signed value, not from its magnitude: -0.5 is rendered from floor(-0.5) = -1 (as '-1:30'), i.e. the sign is not applied to the whole sexagesimal magnitude", fi=f, text="render-signed-fields", witness="num_to_str(-0.5, '%.3m')")
+                bad = True
+                continue
+            if not negs:
+                ctx.violated("C10.SIGN", f.short, f"format {fmt}: the rendering does not distinguish negative values", fi=f, text="render-no-sign-test")
+                bad = True
+                continue
+            is_neg = negs[0] if "(n < 0" in " ".join(show(e.data["cond"]) for e in pa.assumes()) else not negs[0]
+            first = parts[0]
+            lead = first if isinstance(first, str) else (first[0].v if isinstance(first[0], Const) else None)
+            if is_neg:
+                neg_paths += 1
+                if not (isinstance(lead, str) and lead.startswith("-")):
+                    ctx.violated("C10.SIGN", f.short, f"format {fmt}: a negative value is rendered without a leading '-'", fi=f, text="render-missing-minus")
+                    bad = True
+            elif isinstance(lead, str) and lead.startswith("-"):
+                ctx.violated("C10.SIGN", f.short, f"format {fmt}: a non-negative value is rendered with '-'", fi=f, text="render-spurious-minus")
+                bad = True
+            # carry: fields after the first ':' must stay below 60
+            seen_colon = False
+            for x in parts:
+                if isinstance(x, str):
+                    if ":" in x:
+                        seen_colon = True
+                    continue
+                if not seen_colon:
+                    continue
+                if isinstance(x[0], Const):
+                    continue
+                nfields += 1
+                iv = interval(pa.interp, x[0])
+                m = _re.fullmatch(r"0?\d*(?:\.(\d+))?([df]?)", x[1] or "")
+                is_float = bool(m and m.group(2) == "f")
+                prev_is_dot = False
+                if iv is None or iv.hi is None:
+                    ctx.undecided("C10.CARRY", f.short, f"format {fmt}: no upper bound derivable for field {{{show(x[0])[:40]}}}", fi=f)
+                    bad = True
+                elif is_float and iv.hi >= 59:
+                    ctx.violated("C10.CARRY", f.short, f"format {fmt}: field {{{show(x[0])[:40]}:{x[1]}}} is a real number in [0, {iv.hi}] that is rounded by its own format specification: values within half a unit of a carry render '60' (e.g. 1.999 -> '1:60')", fi=f, text=f"carry-float-field:{x[1]}", witness="num_to_str(1.999, '%.3m')")
+                    bad = True
+                elif not is_float and iv.hi > 99:
+                    pass  # a fractional-digit field such as tenths/hundredths is bounded by its own modulus below
+        if neg_paths == 0 and not bad:
+            ctx.violated("C10.SIGN", f.short, f"format {fmt}: no rendering path for negative values", fi=f, text="render-no-negative-path")
+            bad = True
+    # integer fields directly after a ':' must be < 60
+    if not bad:
+        for fmt in SEX_FORMATS[:5]:
+            for pa in run_method(p, f, args=[Term("param", "n", pytype="float"), Const(fmt)], opts={"assert_forks": True}):
+                v = pa.value
+                if pa.outcome != "return" or not (isinstance(v, Term) and v.op == "fstr"):
+                    continue
+                parts = list(v.args)
+                for i, x in enumerate(parts):
+                    if isinstance(x, str) or i == 0:
+                        continue
+                    prev = parts[i - 1]
+                    if isinstance(prev, str) and prev.endswith(":") and not isinstance(x[0], Const):
+                        iv = interval(pa.interp, x[0])
+                        if iv is None or iv.hi is None or iv.hi > 59:
+                            ctx.violated("C10.CARRY", f.short, f"format {fmt}: the field after ':' ({{{show(x[0])[:40]}}}) is not bounded by 59 (interval {iv})", fi=f, text=f"carry-unbounded:{fmt}")
+                            bad = True
+    if not bad:
+        ctx.holds("C10.SIGN", f.short + "[render]", "sign rendered as a separate leading '-', all numeric fields computed from abs(n)", fi=f)
+        ctx.holds("C10.CARRY", f.short, f"every field after a ':' is an integer in [0, 59] derived from one rounded total ({nfields} fields checked)", fi=f)
+
+
+def _only_under_abs(t) -> bool:
+    """Every occurrence of the parameter n in t lies under abs(...)/fabs(...)."""
+    if isinstance(t, Term):
+        if t.op == "param":
+            return t.args[0] != "n"
+        if t.op == "call" and show(t.args[0]) in ("abs", "math.fabs"):
+            return True
+        ok = True
+        for a in t.args:
+            if isinstance(a, (Term,)):
+                ok = ok and _only_under_abs(a)
+            elif isinstance(a, (list, tuple)):
+                for b in a:
+                    if isinstance(b, Term):
+                        ok = ok and _only_under_abs(b)
+                    elif isinstance(b, (list, tuple)):
+                        for c in b:
+                            if isinstance(c, Term):
+                                ok = ok and _only_under_abs(c)
+        return ok
+    return True
+
+
+RULES += [
+    ("C10.SIGN", rule_sign, "parse: value = sign x (whole + minutes/60 + seconds/3600) as a linear form in the captured fields on every path"),
+    ("C10.SIGNR", rule_sign_render, "render: separate leading sign, fields from the magnitude; no field after ':' can reach 60 (carry)"),
+]
